@@ -50,7 +50,7 @@ EXH_DOC = {
     "Exh_PA_reader": "plain + AllocateSeqNum(ingest) committer x 1, Q=3, K=2, 1 two-step reader",
     "Exh_L2_reader": "1 large committer x 2 commits (second overwrites the first), flush+compaction, 1 reader",
     "Exh_PLA": "plain + large + AllocateSeqNum x 1, Q=4, K=2, no reader",
-    "Thor_2x2_reader": "2 plain x 2 commits, Q=3, K=2, memtable holds 1 batch, 1 reader",
+    "Thor_2x2_reader": "2 plain x 2 commits, Q=3, K=2, memtable holds 1 batch (rotations), flush+compaction, 1 two-step reader",
     "Thor_PLA_reader": "plain + large + alloc x 1, Q=4, K=2, 1 reader",
     "Thor_PPP": "3 plain x 1, Q=4, K=2, no reader",
     "Thor_PL2_reader": "plain + large x 2 commits, Q=3, K=2, 1 reader",
@@ -214,6 +214,7 @@ def validate_files(run, files, checked, label, max_rejects=6):
     files = list(files)
     cfgb = trace_cfg(checked)
     rejected = 0
+    known = 0
     events = 0
     accepted = []
     while files:
@@ -257,8 +258,10 @@ def validate_files(run, files, checked, label, max_rejects=6):
         elif op == "read":
             clause, shape = Model(load(f)).classify(ev)
             sig = {"kind": "trace-rejected", "op": "read", "clause": clause, "shape": shape}
-            run.violation(sig, "%s line %d: %s read at seqnum %d rejected by CommitTrace (%s / %s): %s"
+            new = run.violation(sig, "%s line %d: %s read at seqnum %d rejected by CommitTrace (%s / %s): %s"
                           % (os.path.basename(f), line, ev.get("kind"), ev.get("rseq"), clause, shape, json.dumps(ev)[:300]), replay)
+            if not new:
+                known += 1  # a known finding does not count against the rejection cap
         elif op in ("commit", "wal", "vis", "reset"):
             clause = {"commit": "seq", "wal": "wal", "vis": "vis", "reset": "wal"}[op]
             run.violation({"kind": "trace-rejected", "op": op, "clause": clause},
@@ -268,7 +271,7 @@ def validate_files(run, files, checked, label, max_rejects=6):
             raise vlib.Inconclusive("trace %s rejected at line %d on an event outside the vocabulary: %s" % (f, line, str(ev)[:300]))
         rejected += 1
         files = files[i + 1:]
-        if rejected >= max_rejects:
+        if rejected - known >= max_rejects or rejected >= 60:
             break
     return events, rejected, accepted
 
@@ -512,7 +515,8 @@ def run_c06(run):
 
 def run_c07(run):
     extra = [("lead", "Lead_ElideUnpublished", 2, None, dict(timeout=600, heap="2g"))]
-    exh = QUICK_EXH["C07"] if run.tier == "quick" else list(dict(QUICK_EXH["C07"] + THOR_EXH).items())
+    # Thor_2x2_reader: 28.3 M distinct / 97.9 M generated states, measured 19 min at 6 workers on a loaded machine
+    exh = QUICK_EXH["C07"] if run.tier == "quick" else list(dict([("Thor_2x2_reader", 8)] + QUICK_EXH["C07"] + THOR_EXH).items())
     if run.tier == "thorough":
         extra.append(("live", "Live_PP", 4, None, dict(timeout=2400, heap="8g")))
     other = design(run, exh, BUGS["C07"], extra)
